@@ -60,9 +60,12 @@ var malPaths = []string{"", "a", "a.b", "a.", ".a", "a..b", "0", "a.0", "a.0.b",
 // of the stream, which is what the in-Coq sample evaluates.
 var malDrawn int
 
-// window sizes between "large" and "absurd" (bsonkit.Select allocated the LIMIT
-// as capacity before /repo cddce86: 2^31 was a 17 GB allocation per call)
-var malBigWindow = []int64{1 << 31, 1 << 32, 1<<63 - 2}
+// absurd window sizes.  Sizes that are merely large (2^31) are left out on
+// purpose: should a regression bring back an allocation proportional to the
+// limit (bsonkit.Select before /repo cddce86) or to an array index (bsonkit.Put
+// before ba43a99), 2^31 elements would exhaust the memory of the harness
+// instead of producing a report; 2^63-2 fails at once (makeslice)
+var malBigWindow = []int64{1<<63 - 2, 1<<62 + 1}
 
 type malGen struct {
 	r     *rng
@@ -423,7 +426,7 @@ func update0(g *malGen) bson.D {
 		p := pick(r, malPaths)
 		return bson.D{{Key: pick(r, []string{"$set", "$inc", "$push", "$unset", "$min", "$addToSet", "$pull", "$rename", "$bit", "$pop", "$mul"}), Value: bson.D{{Key: p, Value: g.value(2)}}}}
 	case 2:
-		return bson.D{{Key: "$set", Value: bson.D{{Key: pick(r, []string{"arr.1600001", "arr.1600000", "arr.9223372036854775807", "arr.99999999999999999999", "z.2147483648", "_id", "_id.k"}), Value: g.scalar()}}}}
+		return bson.D{{Key: "$set", Value: bson.D{{Key: pick(r, []string{"arr.1600001", "arr.1600000", "arr.9223372036854775807", "arr.99999999999999999999", "z.1700000", "_id", "_id.k"}), Value: g.scalar()}}}}
 	default:
 		return bson.D{{Key: pick(r, []string{"$set", "$setOnInsert", "$unset", "$rename", "$inc", "$mul", "$max", "$min", "$push", "$pop", "$pull", "$pullAll", "$addToSet", "$bit"}), Value: g.value(3)}}
 	}
